@@ -3,7 +3,7 @@
 
   Property theorems over the model of `runner/common/stop.go`, `flushPending` and the per-token
   loop of `processBatch` (Model/Stop.lean; helper lemmas in Proofs/Stop.lean).  Every theorem is
-  for ALL event lists (pieces / EOS), stop lists and limits; `run limit stops init evs` is the
+  for ALL event lists (pieces / EOS), stop lists and limits; `run pinned limit stops init evs` is the
   state after the script `evs` has been offered to the loop, `f.out` the chunks streamed,
   `f.genText` the concatenation of the pieces sampled up to the terminating event.
 -/
@@ -14,8 +14,8 @@ open OllamaVerif OllamaVerif.Stop
 
 /-! ### 1. every streamed chunk is valid UTF-8 (and non-empty) — no hypothesis at all -/
 
-theorem chunks_valid (limit : Int) (stops : List Bytes) (evs : List Ev) :
-    ∀ c ∈ (run limit stops init evs).out, validUtf8 c = true ∧ c ≠ [] := by
+theorem chunks_valid (pinned : Bool) (limit : Int) (stops : List Bytes) (evs : List Ev) :
+    ∀ c ∈ (run pinned limit stops init evs).out, validUtf8 c = true ∧ c ≠ [] := by
   let Inv : St → Prop := fun st => ∀ c ∈ st.out, validUtf8 c = true ∧ c ≠ []
   have hflush : ∀ st, Inv st → Inv st.flush := by
     intro st hi c hc
@@ -25,20 +25,20 @@ theorem chunks_valid (limit : Int) (stops : List Bytes) (evs : List Ev) :
       rcases List.mem_append.mp hc with hc | hc
       · exact hi c hc
       · simp at hc; subst hc; exact ⟨hv, hne⟩
-  have hstep : ∀ st p, Inv st → Inv (stepPiece stops st p) := by
+  have hstep : ∀ st p, Inv st → Inv (stepPiece pinned stops st p) := by
     intro st p hi
-    rcases stepPiece_cases stops st p with ⟨s, _, h⟩ | ⟨_, _, h⟩ | ⟨_, _, _, h⟩
+    rcases stepPiece_cases pinned stops st p with ⟨s, _, h⟩ | ⟨_, _, h⟩ | ⟨_, _, _, h⟩
     · rw [h]; exact hflush _ hi
     · rw [h]; exact hi
     · rw [h]; exact hflush _ hi
-  exact run_ind (Inv := Inv) (Post := Inv) (fun _ h _ => h) (fun st h _ => hflush st h)
+  exact run_ind (pinned := pinned) (Inv := Inv) (Post := Inv) (fun _ h _ => h) (fun st h _ => hflush st h)
     (fun st h _ => hflush _ h) (fun st p h _ _ => hstep st p h) (fun st p h _ _ => hstep st p h)
     evs init (by intro c hc; cases hc)
 
 /-! ### 2. the finish reason: the map the code implements (two values for three causes) -/
 
-theorem reason_map (limit : Int) (stops : List Bytes) (evs : List Ev) :
-    let f := run limit stops init evs
+theorem reason_map (pinned : Bool) (limit : Int) (stops : List Bytes) (evs : List Ev) :
+    let f := run pinned limit stops init evs
     (f.done = some .length ↔ f.cause = some .limit) ∧
     (f.done = some .stop ↔ (f.cause = some .eos ∨ ∃ s, f.cause = some (.stopString s))) ∧
     (f.done = none ↔ f.cause = none) := by
@@ -49,24 +49,24 @@ theorem reason_map (limit : Int) (stops : List Bytes) (evs : List Ev) :
     (f.done = none ↔ f.cause = none)
   have hInvPost : ∀ st, Inv st → Post st := by
     intro st ⟨h1, h2⟩; simp [Post, h1, h2]
-  have hstep : ∀ st p, Inv st → (Post (stepPiece stops st p)) ∧
-      ((stepPiece stops st p).done.isSome = false → Inv (stepPiece stops st p)) := by
+  have hstep : ∀ st p, Inv st → (Post (stepPiece pinned stops st p)) ∧
+      ((stepPiece pinned stops st p).done.isSome = false → Inv (stepPiece pinned stops st p)) := by
     intro st p ⟨h1, h2⟩
-    rcases stepPiece_cases stops st p with ⟨s, _, h⟩ | ⟨_, _, h⟩ | ⟨_, _, _, h⟩
+    rcases stepPiece_cases pinned stops st p with ⟨s, _, h⟩ | ⟨_, _, h⟩ | ⟨_, _, _, h⟩
     · rw [h]; simp [Post]
     · rw [h]; exact ⟨hInvPost _ ⟨h1, h2⟩, fun _ => ⟨h1, h2⟩⟩
     · rw [h]
       have : Inv (st.push p).flush := ⟨by simpa [St.push] using h1, by simpa [St.push] using h2⟩
       exact ⟨hInvPost _ this, fun _ => this⟩
-  exact run_ind (Inv := Inv) (Post := Post) (fun st h _ => hInvPost st h)
+  exact run_ind (pinned := pinned) (Inv := Inv) (Post := Post) (fun st h _ => hInvPost st h)
     (fun st _ _ => by simp [Post]) (fun st _ _ => by simp [Post])
     (fun st p h _ _ => (hstep st p h).1) (fun st p h _ hd => (hstep st p h).2 hd)
     evs init ⟨rfl, rfl⟩
 
 /-! ### 3. for ANY bytes: the output is the generated text with some bytes deleted -/
 
-theorem out_sublist_gen (limit : Int) (stops : List Bytes) (evs : List Ev) :
-    let f := run limit stops init evs
+theorem out_sublist_gen (pinned : Bool) (limit : Int) (stops : List Bytes) (evs : List Ev) :
+    let f := run pinned limit stops init evs
     (f.outText ++ f.pending.flatten).Sublist f.genText := by
   let Inv : St → Prop := fun st => (st.outText ++ st.pending.flatten).Sublist st.genText
   have hflush : ∀ st, Inv st → Inv st.flush := by
@@ -87,20 +87,20 @@ theorem out_sublist_gen (limit : Int) (stops : List Bytes) (evs : List Ev) :
     have : (st.flush.out.flatten ++ st.flush.pending.flatten).Sublist st.flush.gen.flatten := hflush st hi
     show ((st.finish r c).out.flatten ++ (st.finish r c).pending.flatten).Sublist (st.finish r c).gen.flatten
     simpa using this
-  have hstep : ∀ st p, Inv st → Inv (stepPiece stops st p) := by
+  have hstep : ∀ st p, Inv st → Inv (stepPiece pinned stops st p) := by
     intro st p hi
-    rcases stepPiece_cases stops st p with ⟨s, hs, h⟩ | ⟨_, _, h⟩ | ⟨_, _, _, h⟩
+    rcases stepPiece_cases pinned stops st p with ⟨s, hs, h⟩ | ⟨_, _, h⟩ | ⟨_, _, _, h⟩
     · rw [h]
       apply hfinish
       have h1 := hpush st p hi
-      obtain ⟨idx, hidx⟩ := (findStop_some hs).2.indexOf
+      obtain ⟨idx, hidx⟩ := (findStopV_some hs).2.indexOf
       show ((st.push p).out.flatten ++ (truncateStop (st.push p).pending s).1.flatten).Sublist (st.push p).gen.flatten
       rw [truncateStop_flatten hidx]
       exact List.Sublist.trans
         (List.Sublist.append (List.Sublist.refl _) (List.take_sublist _ _)) h1
     · rw [h]; exact hpush st p hi
     · rw [h]; exact hflush _ (hpush st p hi)
-  exact run_ind (Inv := Inv) (Post := Inv) (fun _ h _ => h) (fun st h _ => hfinish st _ _ h)
+  exact run_ind (pinned := pinned) (Inv := Inv) (Post := Inv) (fun _ h _ => h) (fun st h _ => hfinish st _ _ h)
     (fun st h _ => hfinish _ _ _ h) (fun st p h _ _ => hstep st p h) (fun st p h _ _ => hstep st p h)
     evs init (List.Sublist.refl _)
 
@@ -108,8 +108,8 @@ theorem out_sublist_gen (limit : Int) (stops : List Bytes) (evs : List Ev) :
 
 /-- `ValidPrefix g`: `g` is a prefix of some valid UTF-8 string, i.e. valid except that the last
     character may still be incomplete (the limit may cut generation inside a character). -/
-theorem prefix_valid (limit : Int) (stops : List Bytes) (evs : List Ev) :
-    let f := run limit stops init evs
+theorem prefix_valid (pinned : Bool) (limit : Int) (stops : List Bytes) (evs : List Ev) :
+    let f := run pinned limit stops init evs
     ValidPrefix f.genText → f.outText <+: f.genText ∧ validUtf8 f.outText = true := by
   let Inv : St → Prop := fun st =>
     st.genText = st.outText ++ st.pending.flatten ∧ validUtf8 st.outText = true
@@ -124,7 +124,7 @@ theorem prefix_valid (limit : Int) (stops : List Bytes) (evs : List Ev) :
     have hy' : flushText st.pending ++ y = st.pending.flatten := hy
     rw [List.append_assoc, ← List.append_assoc (flushText st.pending) y x, hy']
     exact (List.append_assoc _ _ _).symm
-  refine run_ind (limit := limit) (stops := stops)
+  refine run_ind (pinned := pinned) (limit := limit) (stops := stops)
     (Inv := fun st => ValidPrefix st.genText → Inv st)
     (Post := fun f => ValidPrefix f.genText → Post f) ?_ ?_ ?_ ?_ ?_ evs init
     (fun _ => ⟨rfl, by decide⟩)
@@ -141,9 +141,9 @@ theorem prefix_valid (limit : Int) (stops : List Bytes) (evs : List Ev) :
     rw [stepPiece_genText] at hvp
     obtain ⟨h1, h2⟩ := hi hvp.left
     have h1' : st.gen.flatten = st.out.flatten ++ st.pending.flatten := h1
-    rcases stepPiece_cases stops st p with ⟨s, hs, h⟩ | ⟨_, _, h⟩ | ⟨_, _, hinc, h⟩
+    rcases stepPiece_cases pinned stops st p with ⟨s, hs, h⟩ | ⟨_, _, h⟩ | ⟨_, _, hinc, h⟩
     · rw [h]
-      obtain ⟨idx, hidx⟩ := (findStop_some hs).2.indexOf
+      obtain ⟨idx, hidx⟩ := (findStopV_some hs).2.indexOf
       refine hfinish { st.push p with pending := (truncateStop (st.push p).pending s).1 } _ _ h2 ?_
       refine ⟨((st.pending ++ [p]).flatten).drop idx, ?_⟩
       show (st.gen ++ [p]).flatten = st.out.flatten ++ (truncateStop (st.pending ++ [p]) s).1.flatten ++ _
@@ -167,7 +167,7 @@ theorem prefix_valid (limit : Int) (stops : List Bytes) (evs : List Ev) :
     rw [stepPiece_genText] at hvp
     obtain ⟨h1, h2⟩ := hi hvp.left
     have h1' : st.gen.flatten = st.out.flatten ++ st.pending.flatten := h1
-    rcases stepPiece_cases stops st p with ⟨s, hs, h⟩ | ⟨_, _, h⟩ | ⟨_, _, hinc, h⟩
+    rcases stepPiece_cases pinned stops st p with ⟨s, hs, h⟩ | ⟨_, _, h⟩ | ⟨_, _, hinc, h⟩
     · rw [h] at hd; simp at hd
     · rw [h]
       exact ⟨by
@@ -208,21 +208,21 @@ theorem flatten_valid : ∀ (l : List Bytes), (∀ c ∈ l, validUtf8 c = true) 
     the first `k` chunks, any `k`) is a character boundary of the generated text: what was
     streamed up to there is valid UTF-8, is a prefix of the generated text, and whatever valid
     text the generation is completed to, the part after the boundary is valid on its own. -/
-theorem no_split (limit : Int) (stops : List Bytes) (evs : List Ev) (k : Nat) :
-    let f := run limit stops init evs
+theorem no_split (pinned : Bool) (limit : Int) (stops : List Bytes) (evs : List Ev) (k : Nat) :
+    let f := run pinned limit stops init evs
     let cut := (f.out.take k).flatten
     ValidPrefix f.genText →
       validUtf8 cut = true ∧ cut <+: f.genText ∧
       ∀ r, validUtf8 (f.genText ++ r) = true → validUtf8 ((f.genText ++ r).drop cut.length) = true := by
   intro f cut hvp
-  have hcv := chunks_valid limit stops evs
+  have hcv := chunks_valid pinned limit stops evs
   have hv : validUtf8 cut = true :=
     flatten_valid _ (fun c hc => (hcv c (List.mem_of_mem_take hc)).1)
   have hpre : cut <+: f.genText := by
     have h1 : cut <+: f.out.flatten := by
       have : f.out = f.out.take k ++ f.out.drop k := (List.take_append_drop k f.out).symm
       exact ⟨(f.out.drop k).flatten, by rw [← List.flatten_append, ← this]⟩
-    exact List.IsPrefix.trans h1 (prefix_valid limit stops evs hvp).1
+    exact List.IsPrefix.trans h1 (prefix_valid pinned limit stops evs hvp).1
   refine ⟨hv, hpre, ?_⟩
   intro r hr
   obtain ⟨y, hy⟩ := hpre
@@ -236,7 +236,7 @@ theorem no_split (limit : Int) (stops : List Bytes) (evs : List Ev) (k : Nat) :
     output is exactly the generated text before that stop's first occurrence, the reason is "stop",
     and no stop occurred before the last token ("as soon as"). -/
 theorem stop_found (limit : Int) (stops : List Bytes) (evs : List Ev) (hok : StopsOk stops) (s : Bytes) :
-    let f := run limit stops init evs
+    let f := run true limit stops init evs
     ValidPrefix f.genText → f.cause = some (.stopString s) →
       f.done = some .stop ∧ s ∈ stops ∧ findStop f.genText stops = some s ∧
       (∃ idx, indexOf s f.genText = some idx ∧ f.outText = f.genText.take idx) ∧
@@ -251,7 +251,7 @@ theorem stop_found (limit : Int) (stops : List Bytes) (evs : List Ev) (hok : Sto
     generated text; at EOS / at the limit the output is all of it (minus a trailing incomplete
     character); while running nothing is lost: output ++ pending = generated. -/
 theorem ends_at_eos_or_limit (limit : Int) (stops : List Bytes) (evs : List Ev) (hok : StopsOk stops) :
-    let f := run limit stops init evs
+    let f := run true limit stops init evs
     ValidPrefix f.genText → (∀ s, f.cause ≠ some (.stopString s)) →
       (∀ t ∈ stops, ¬ Occurs t f.genText) ∧
       ((f.cause = some .eos ∨ f.cause = some .limit) → f.outText = trimValid f.genText) ∧
@@ -277,7 +277,7 @@ theorem ends_at_eos_or_limit (limit : Int) (stops : List Bytes) (evs : List Ev) 
 /-- "as soon as the generated text contains a stop the output ends": if any stop occurs in the
     generated text, the run was ended by a stop string -/
 theorem stop_honoured (limit : Int) (stops : List Bytes) (evs : List Ev) (hok : StopsOk stops) :
-    let f := run limit stops init evs
+    let f := run true limit stops init evs
     ValidPrefix f.genText → (∃ t ∈ stops, Occurs t f.genText) →
       ∃ s, f.cause = some (.stopString s) ∧ f.done = some .stop := by
   intro f hvp ⟨t, ht, hocc⟩
@@ -303,7 +303,7 @@ def firstListedIsEarliest (stops : List Bytes) (g : Bytes) : Bool :=
     the pinned code (finding F7, witness below).  It holds whenever the first listed stop that
     occurs in the generated text is also the earliest occurrence. -/
 theorem no_stop_in_output_partial (limit : Int) (stops : List Bytes) (evs : List Ev) (hok : StopsOk stops) :
-    let f := run limit stops init evs
+    let f := run true limit stops init evs
     ValidPrefix f.genText → firstListedIsEarliest stops f.genText = true →
       ∀ t ∈ stops, ¬ Occurs t f.outText := by
   intro f hvp hguard t ht hocc
@@ -335,14 +335,14 @@ theorem no_stop_in_output_partial (limit : Int) (stops : List Bytes) (evs : List
   · have hc' : ∀ s, f.cause ≠ some (.stopString s) := fun s h => hc ⟨s, h⟩
     obtain ⟨hno, _, _, _⟩ := ends_at_eos_or_limit limit stops evs hok hvp hc'
     apply hno t ht
-    obtain ⟨y, hy⟩ := (prefix_valid limit stops evs hvp).1
+    obtain ⟨y, hy⟩ := (prefix_valid true limit stops evs hvp).1
     rw [← hy]; exact hocc.append_right y
 
 /-- **Single stop**: the full clause.  If the stop occurs in the generated text, the output is
     exactly the text before its first occurrence, contains no stop, and the reason is "stop";
     otherwise the run was not ended by a stop string. -/
 theorem single_stop (limit : Int) (s : Bytes) (evs : List Ev) (hs : s ≠ [] ∧ validUtf8 s = true) :
-    let f := run limit [s] init evs
+    let f := run true limit [s] init evs
     ValidPrefix f.genText →
       (Occurs s f.genText →
         f.done = some .stop ∧ ¬ Occurs s f.outText ∧
@@ -371,30 +371,32 @@ theorem single_stop (limit : Int) (s : Bytes) (evs : List Ev) (hs : s ≠ [] ∧
 
 /-- **F7** (`FindStop` takes the first *listed* stop, not the earliest occurrence): one token
     `"}\n\n"` with stops `["\n\n", "}"]` streams `"}"`, which contains the stop `"}"`; with the
-    stops listed the other way round nothing is streamed.  The guard of
+    stops listed the other way round — or with the repaired `FindStop` (`pinned = false`) —
+    nothing is streamed.  The guard of
     `no_stop_in_output_partial` is false exactly here. -/
 theorem F7_first_listed_not_earliest :
     let evs := [Ev.piece [0x7d, 0x0a, 0x0a], Ev.eos]
-    (run 0 [[0x0a, 0x0a], [0x7d]] init evs).out = [[0x7d]] ∧
-    (run 0 [[0x0a, 0x0a], [0x7d]] init evs).done = some .stop ∧
-    contains (run 0 [[0x0a, 0x0a], [0x7d]] init evs).outText [0x7d] = true ∧
+    (run true 0 [[0x0a, 0x0a], [0x7d]] init evs).out = [[0x7d]] ∧
+    (run true 0 [[0x0a, 0x0a], [0x7d]] init evs).done = some .stop ∧
+    contains (run true 0 [[0x0a, 0x0a], [0x7d]] init evs).outText [0x7d] = true ∧
     firstListedIsEarliest [[0x0a, 0x0a], [0x7d]] [0x7d, 0x0a, 0x0a] = false ∧
-    (run 0 [[0x7d], [0x0a, 0x0a]] init evs).out = [] := by decide
+    (run true 0 [[0x7d], [0x0a, 0x0a]] init evs).out = [] ∧
+    (run false 0 [[0x0a, 0x0a], [0x7d]] init evs).out = [] := by decide
 
 /-- **F20a** (invalid bytes are dropped mid-stream): pieces `"a" "\xff" "b"` with stop `"ab"`
     stream `"a"` then `"b"`: the output `"ab"` is not a prefix of the generated `"a\xffb"` and it
     *is* the stop string.  (The generated text is not valid UTF-8, so the valid-text clauses do not
     apply; the unconditional "prefix of the generated text" clause of the property is violated.) -/
 theorem F20_invalid_bytes_dropped :
-    let f := run 0 [[0x61, 0x62]] init [Ev.piece [0x61], Ev.piece [0xff], Ev.piece [0x62], Ev.eos]
+    let f := run true 0 [[0x61, 0x62]] init [Ev.piece [0x61], Ev.piece [0xff], Ev.piece [0x62], Ev.eos]
     f.out = [[0x61], [0x62]] ∧ f.genText = [0x61, 0xff, 0x62] ∧
     f.outText.isPrefixOf f.genText = false ∧ contains f.outText [0x61, 0x62] = true := by decide
 
 /-- **F20b** (two reason values for three causes): an EOS-terminated run and a
     stop-string-terminated run report the same reason. -/
 theorem F20_reason_not_injective :
-    let f1 := run 0 [[0x78]] init [Ev.piece [0x61], Ev.eos]
-    let f2 := run 0 [[0x78]] init [Ev.piece [0x61], Ev.piece [0x78]]
+    let f1 := run true 0 [[0x78]] init [Ev.piece [0x61], Ev.eos]
+    let f2 := run true 0 [[0x78]] init [Ev.piece [0x61], Ev.piece [0x78]]
     f1.cause = some .eos ∧ f2.cause = some (.stopString [0x78]) ∧ f1.done = f2.done := by decide
 
 /-! ### 7. non-vacuity: the hypotheses are met by non-trivial concrete runs -/
@@ -404,14 +406,14 @@ theorem F20_reason_not_injective :
 example :
     let stops : List Bytes := [[0x3c, 0x7c], [0x7a, 0x7a]]
     let evs := [Ev.piece [0x61, 0xe2], Ev.piece [0x82, 0xac, 0x3c], Ev.piece [0x7c, 0x78], Ev.eos]
-    let f := run 5 stops init evs
+    let f := run true 5 stops init evs
     (∀ t ∈ stops, t ≠ [] ∧ validUtf8 t = true) ∧ validUtf8 f.genText = true ∧
     f.cause = some (.stopString [0x3c, 0x7c]) ∧ f.out = [[0x61, 0xe2, 0x82, 0xac]] ∧
     firstListedIsEarliest stops f.genText = true := by decide
 
 /-- the limit cuts generation inside a character: the text is a `ValidPrefix`, not valid -/
 example :
-    let f := run 2 [] init [Ev.piece [0x61], Ev.piece [0xe2, 0x82], Ev.piece [0xac]]
+    let f := run true 2 [] init [Ev.piece [0x61], Ev.piece [0xe2, 0x82], Ev.piece [0xac]]
     validUtf8 (f.genText ++ [0xac]) = true ∧ validUtf8 f.genText = false ∧
     f.cause = some .limit ∧ f.out = [[0x61]] := by decide
 
